@@ -429,8 +429,17 @@ func metaFaults(x *netctl.Exec, dir string, key int16, c *netctl.Conn) []string 
 }
 
 func baseOpts() []kgo.Opt {
-	return []kgo.Opt{kgo.MetadataMaxAge(5 * time.Second), kgo.FetchMaxWait(2 * time.Second)}
+	return []kgo.Opt{kgo.MetadataMaxAge(5 * time.Second), kgo.FetchMaxWait(1700 * time.Millisecond)}
 }
+
+// Durations are chosen pairwise "incommensurable" so that two timers (long
+// poll expiry, metadata refresh, poll timeout, ENV pacing) practically never
+// fire at the same virtual instant: the order of simultaneous timers is not
+// owned by the controller and makes replayed prefixes diverge.
+const (
+	pollWait = 2300 * time.Millisecond
+	envNap   = 1130 * time.Millisecond
+)
 
 func nap(d time.Duration) { time.Sleep(d) }
 
@@ -442,9 +451,9 @@ func (st *state) pollUntil(t *netctl.Thread, until time.Duration, max int) {
 	for i := 0; i < max && st.x.Elapsed() < until; i++ {
 		t.Step("poll")
 		before := st.x.Elapsed()
-		st.poll(2*time.Second, -1)
+		st.poll(pollWait, -1)
 		if st.x.Elapsed() == before {
-			nap(500 * time.Millisecond) // a poll that returned at once (data or an error): do not spin
+			nap(430 * time.Millisecond) // a poll that returned at once (data or an error): do not spin
 		}
 	}
 }
@@ -476,27 +485,29 @@ var scNames = &netctl.Scenario{
 		st.m.topics["a"], st.m.topics["b"], st.m.topics["d"] = true, true, true
 		st.cl = nscen.NewClient(x, "c", st.c, append(baseOpts(), kgo.ConsumeTopics("a", "b", "d"))...)
 		x.Thread("APP", func(t *netctl.Thread) {
-			t.Step("poll1")
-			st.poll(2*time.Second, 1) // at most one record: the rest stays buffered
-			t.Step("add-c")
-			st.addConsumeTopics("c") // internal-flagged, named explicitly; possibly not created yet
-			t.Step("poll1")
-			st.poll(2*time.Second, 1)
+			// A direct consumer fetches as soon as it exists: by now the records
+			// of a, b and d are normally buffered in the client, unpolled. The
+			// purge must drop b's.
+			nap(310 * time.Millisecond)
 			t.Step("purge-b")
 			st.purge("b")
+			t.Step("poll")
+			st.poll(pollWait, -1)
+			t.Step("add-c")
+			st.addConsumeTopics("c") // internal-flagged, named explicitly; possibly not created yet
 			st.pollUntil(t, 12*time.Second, 12)
 		})
 		x.Thread("ENV", func(t *netctl.Thread) {
-			nap(time.Second)
+			nap(envNap)
 			t.Step("create-c-internal")
 			st.createTopic("c", 1, true)
-			nap(time.Second)
+			nap(envNap)
 			t.Step("create-y")
 			st.createTopic("y", 1, false) // never selected
-			nap(time.Second)
+			nap(envNap)
 			t.Step("addparts-a")
 			st.addPartitions("a", 1)
-			nap(time.Second)
+			nap(envNap)
 			t.Step("delete-d")
 			st.deleteTopic("d")
 		})
@@ -516,12 +527,11 @@ var scNamesRemove = &netctl.Scenario{
 		st.m.topics["a"], st.m.topics["b"] = true, true
 		st.cl = nscen.NewClient(x, "c", st.c, append(baseOpts(), kgo.ConsumeTopics("a", "b"))...)
 		x.Thread("APP", func(t *netctl.Thread) {
-			t.Step("poll1")
-			st.poll(2*time.Second, 1)
+			nap(310 * time.Millisecond) // a/0, a/1, b/0, b/1 normally buffered by now, unpolled
 			t.Step("remove-a0")
 			st.removeConsumePartitions(map[string][]int32{"a": {0}})
-			t.Step("poll1")
-			st.poll(2*time.Second, 1)
+			t.Step("poll")
+			st.poll(pollWait, -1)
 			t.Step("remove-b0-b1")
 			// "If you specified ConsumeTopics and this function removes all
 			// partitions for a topic, the topic will no longer be consumed."
@@ -529,7 +539,7 @@ var scNamesRemove = &netctl.Scenario{
 			st.pollUntil(t, 12*time.Second, 12)
 		})
 		x.Thread("ENV", func(t *netctl.Thread) {
-			nap(2 * time.Second)
+			nap(2 * envNap)
 			t.Step("addparts-a")
 			st.addPartitions("a", 1) // a/2: topic a is still consumed by name
 		})
@@ -552,23 +562,23 @@ var scRegex = &netctl.Scenario{
 		st.m.exclude = []*regexp.Regexp{regexp.MustCompile("^tx.*")}
 		st.cl = nscen.NewClient(x, "c", st.c, append(baseOpts(), kgo.ConsumeRegex(), kgo.ConsumeTopics("^t.*"), kgo.ConsumeExcludeTopics("^tx.*"))...)
 		x.Thread("APP", func(t *netctl.Thread) {
-			t.Step("poll1")
-			st.poll(2*time.Second, 1)
+			t.Step("poll")
+			st.poll(pollWait, -1)
 			t.Step("add-u1-noop")
 			st.addConsumeTopics("u1") // documented no-op under regex
 			t.Step("addparts-u1-noop")
 			st.addConsumePartitions(map[string][]int32{"u1": {0}}) // documented to work only for non-regex consumers
 			t.Step("poll")
-			st.poll(2*time.Second, -1)
+			st.poll(pollWait, -1)
 			t.Step("purge-t1")
 			st.purge("t1") // still exists and still matches: "will be re-discovered"
 			st.pollUntil(t, 12*time.Second, 12)
 		})
 		x.Thread("ENV", func(t *netctl.Thread) {
-			nap(time.Second)
+			nap(envNap)
 			t.Step("create-t2")
 			st.createTopic("t2", 1, false) // matching, created later
-			nap(time.Second)
+			nap(envNap)
 			t.Step("create-t3-tx2")
 			st.createTopic("t3", 1, false)  // matching, created later, stays
 			st.createTopic("tx2", 1, false) // excluded
@@ -576,10 +586,10 @@ var scRegex = &netctl.Scenario{
 			st.createTopic("t_int", 1, true) // matches the regex but is internal
 			t.Step("create-__x")
 			st.createTopic("__x", 1, false) // internal-looking name, does not match
-			nap(time.Second)
+			nap(envNap)
 			t.Step("addparts-t1")
 			st.addPartitions("t1", 1)
-			nap(6 * time.Second) // past one MetadataMaxAge: t2 is normally discovered before it disappears
+			nap(6 * envNap) // past one MetadataMaxAge: t2 is normally discovered before it disappears
 			t.Step("delete-t2")
 			st.deleteTopic("t2")
 		})
@@ -596,35 +606,37 @@ var scParts = &netctl.Scenario{
 		joinThreads(x)
 		st.createTopic("p", 2, false)
 		st.createTopic("q", 2, false)
-		st.m.parts[tp{"p", 0}], st.m.parts[tp{"q", 1}] = true, true
+		// Initially ONE partition: PollRecords(ctx, 1) then deterministically
+		// returns p/0@0 and leaves p/0@1 buffered in the client (with several
+		// partitions ready, which record comes first follows map order, which
+		// the controller does not own and which changes later frames).
+		st.m.parts[tp{"p", 0}] = true
 		start := kgo.NewOffset().AtStart()
-		st.cl = nscen.NewClient(x, "c", st.c, append(baseOpts(), kgo.ConsumePartitions(map[string]map[int32]kgo.Offset{"p": {0: start}, "q": {1: start}}))...)
+		st.cl = nscen.NewClient(x, "c", st.c, append(baseOpts(), kgo.ConsumePartitions(map[string]map[int32]kgo.Offset{"p": {0: start}}))...)
 		x.Thread("APP", func(t *netctl.Thread) {
 			t.Step("poll1")
-			st.poll(2*time.Second, 1)
-			t.Step("add-p1-r0")
-			st.addConsumePartitions(map[string][]int32{"p": {1}, "r": {0}}) // r possibly not created yet
-			t.Step("poll1")
-			st.poll(2*time.Second, 1)
+			st.poll(pollWait, 1)
+			t.Step("remove-p0") // p/0@1 is normally buffered now and must be dropped
+			st.removeConsumePartitions(map[string][]int32{"p": {0}})
+			t.Step("add-p1-q1-r0")
+			st.addConsumePartitions(map[string][]int32{"p": {1}, "q": {1}, "r": {0}}) // r possibly not created yet
+			t.Step("poll")
+			st.poll(pollWait, -1)
 			t.Step("remove-q1")
 			st.removeConsumePartitions(map[string][]int32{"q": {1}})
-			t.Step("poll")
-			st.poll(2*time.Second, -1)
-			t.Step("remove-p0")
-			st.removeConsumePartitions(map[string][]int32{"p": {0}})
 			st.pollUntil(t, 12*time.Second, 12)
 		})
 		x.Thread("ENV", func(t *netctl.Thread) {
-			nap(time.Second)
+			nap(envNap)
 			t.Step("create-r")
 			st.createTopic("r", 2, false) // r/0 selected by AddConsumePartitions, r/1 never
-			nap(time.Second)
+			nap(envNap)
 			t.Step("addparts-p")
 			st.addPartitions("p", 1) // p/2 never selected
-			nap(time.Second)
+			nap(envNap)
 			t.Step("create-z")
 			st.createTopic("z", 1, false)
-			nap(time.Second)
+			nap(envNap)
 			t.Step("delete-q")
 			st.deleteTopic("q")
 		})
@@ -634,9 +646,9 @@ var scParts = &netctl.Scenario{
 
 var plans = []nrun.Plan{
 	{Scenario: scNames, QuickBudget: 1, ThoroughBudget: 2, Weight: 1.5},
-	{Scenario: scNamesRemove, QuickBudget: 1, ThoroughBudget: 2, Weight: 0.5},
 	{Scenario: scRegex, QuickBudget: 1, ThoroughBudget: 2, Weight: 1},
 	{Scenario: scParts, QuickBudget: 1, ThoroughBudget: 2, Weight: 1},
+	{Scenario: scNamesRemove, QuickBudget: 1, ThoroughBudget: 2, Weight: 0.5},
 }
 
 func TestC39(t *testing.T) {
